@@ -165,6 +165,15 @@ Section C19_imports.
                                  (b "right", VStr fo (concat (skipn (Z.to_nat idx) (utf8_chars s))))]).
   Proof. exact (std_strings_split_at fo). Qed.
 
+  (* substr{start, end}: the characters (not bytes) whose index lies in the inclusive range start..end *)
+  Theorem substr_is_inclusive_character_range : forall E st ord s a b', fits (Z.of_nat (List.length s)) ->
+      exists f, eval_imp fo std_imports f []
+                  (ctx_gen fo E st ord [(b "arg3", VInt fo b'); (b "arg2", VInt fo a); (b "arg", VStr fo s)])
+                  (EBin DOT (EBin DOT wrap_arg (ECopy (ESym (b "substr")) [(b "start", ESym (b "arg2")); (b "end", ESym (b "arg3"))]))
+                            (ESym (b "str")))
+                = Ok (VStr fo (pick a b' 0 (utf8_chars s))).
+  Proof. exact (std_strings_substr fo). Qed.
+
   (* split_on: the pieces between leftmost, non-overlapping occurrences of the separator (UTF-8 characters) ... *)
   Theorem split_on_is_split : forall E st ord s sep,
       fits (Z.of_nat (List.length s)) -> fits (Z.of_nat (List.length sep)) ->
